@@ -1024,7 +1024,7 @@ impl<T: Decode, const N: usize> Decode for [T; N] {
 	}
 
 	fn encoded_fixed_size() -> Option<usize> {
-		Some(<T as Decode>::encoded_fixed_size()? * N)
+		<T as Decode>::encoded_fixed_size()?.checked_mul(N)
 	}
 }
 
